@@ -255,6 +255,15 @@ def referrers(repo, subject, flt=None):
                 model=sl("refs", sx(repo), sx(subject), sx(flt or "")))
 
 
+def split(outer, at, mids):
+    """deliver the body of [outer] in two parts; [mids] run on the implementation after the first [at]
+    bytes were read by the handler.  The model runs the mids first, then the outer request, whose
+    response is not compared (only the state afterwards is, through later requests)."""
+    impl = dict(outer["impl"], mid=[m["impl"] for m in mids], split=at)
+    return dict(kind="split", repo=outer.get("repo"), outer=outer, mids=mids, at=at, body=outer.get("body"),
+                impl=impl, model=sl("group", *([m["model"] for m in mids] + [outer["model"]])))
+
+
 def special(op, model="(skip)", **kw):
     """driver-only operation (gc, restart, snapshot, ...)"""
     st = dict(op=op)
@@ -429,6 +438,11 @@ def canon_impl(step, res, sids):
     if step["kind"] == "tagwalk":
         sub = dict(kind="tags", head=False)
         return dict(pages=[canon_impl(sub, p, sids) for p in res["par"][0]])
+    if step.get("model") == "(skip)":
+        return dict(skip=True)
+    if step["kind"] == "split":
+        mids = (res.get("par") or [[]])[0]
+        return dict(mids=[canon_impl(m, r, sids) for m, r in zip(step["mids"], mids)], nmids=len(mids))
     body = base64.b64decode(res.get("b64", "") or "")
     o = dict(panic=False, status=res["status"], errs=[], digest=_h(res, "Docker-Content-Digest"))
     kind = step["kind"]
@@ -474,6 +488,11 @@ def canon_model(step, res, sids):
     if step["kind"] == "tagwalk":
         sub = dict(kind="tags", head=False)
         return dict(pages=[canon_model(sub, p, sids) for p in res["pages"]])
+    if step.get("model") == "(skip)" or res.get("skip"):
+        return dict(skip=True)
+    if step["kind"] == "split":
+        g = res["group"][:-1]
+        return dict(mids=[canon_model(m, r, sids) for m, r in zip(step["mids"], g)], nmids=len(g))
     o = dict(panic=False, status=res["status"], errs=res["errs"], digest=res["digest"])
     kind = step["kind"]
     st = res["status"]
